@@ -876,3 +876,26 @@ Proof.
   intros a mr ur d o. destruct (exec_msg (run s steps) (IssueDenom a c mr ur d o)) as [s'|] eqn:He; [|reflexivity].
   apply issue_lemma in He. destruct He as (Hn & _). congruence.
 Qed.
+
+(** ** the owner is never locked out *)
+Lemma owner_can_act s c t o : Reachable s ->
+  get_owner s c t = Some o -> denom_ok c = true -> token_ok t = true ->
+  (exists s', exec_msg s (Burn o c t) = Some s')
+  /\ (forall r, 0 <= r -> exists s', exec_msg s (Transfer o c t dnm dnm dnm dnm r) = Some s').
+Proof.
+  intros Hr Ho Hd Ht. apply Reachable_Inv in Hr. destruct Hr as (_ & _ & Hiff & _ & _ & Hcls & Hrng).
+  unfold get_owner in Ho.
+  assert (Ha : addr_ok o = true) by (apply addr_ok_spec; apply (Hrng (c, t)); exact Ho).
+  assert (Hn : get (c, t) (nfts s) <> None) by (apply Hiff; congruence).
+  assert (Hc : get c (classes s) <> None) by (apply (Hcls c t); exact Hn).
+  assert (Hau : authorize s c t o = true) by (apply authorize_spec; exact Ho).
+  assert (Hhc : has_class s c = true) by (apply has_true; exact Hc).
+  assert (Hhn : has_nft s c t = true) by (apply has_true; exact Hn).
+  split.
+  - simpl. unfold burn. rewrite Ha, Hd, Ht, Hau. simpl. unfold nk_burn. rewrite Hhc, Hhn. simpl. eexists. reflexivity.
+  - intros r Hr0. assert (Hra : addr_ok r = true) by (apply addr_ok_spec; exact Hr0).
+    simpl. unfold transfer. rewrite Hd, Ha, Hra, Ht. simpl.
+    destruct (get (c, t) (nfts s)) as [m|]; [|congruence]. rewrite Hau. simpl.
+    destruct (get c (classes s)) as [cl|]; [|congruence].
+    rewrite Bool.andb_false_r. simpl. unfold nk_transfer. rewrite Hhc, Hhn. simpl. eexists. reflexivity.
+Qed.
